@@ -162,9 +162,13 @@ def check(case: dict):
     return {"nt": nt, "labels": labels}
 
 
-def _exhaustive_cases(shard, nshards):
+def _exhaustive_medium(shard, nshards):
+    yield from _exhaustive_cases(shard, nshards, G.medium_shapes())
+
+
+def _exhaustive_cases(shard, nshards, shapes=None):
     k = 0
-    for r, c in G.small_shapes():
+    for r, c in (shapes or G.small_shapes()):
         for g in G.all_graphs(r, c):
             k += 1
             if k % nshards != shard:
@@ -237,5 +241,6 @@ def subs(tier: str):
     return [
         Sub("exhaustive<=3x3", check, "exhaustive", cases=_exhaustive_cases, exhaustive_flag=True),
         Sub("forks-exhaustive<=3x3", check, "exhaustive", cases=_exhaustive_fork_cases, exhaustive_flag=True),
+        *([] if q else [Sub("exhaustive-2x4-2x5-1xN", check, "exhaustive", cases=_exhaustive_medium, exhaustive_flag=True)]),
         Sub("random", check, "hypothesis", strategy=lambda: _random_case(15 if q else 25), examples=40 if q else 600),
     ]
